@@ -8,7 +8,7 @@ CONST = {
  "MC_TxKV.cfg": "2 keys, 2 values, depth 2, 2 commits, 1 reader, <= 2 ops/tx", "MC_TxKV_cursor.cfg": "3 keys, 1 cursor, <= 3 ops",
  "MC_TxKV_readers.cfg": "2 readers, 3 commits", "MC_TxKV_deep.cfg": "3 commits, 2 readers, <= 3 ops/tx",
  "MC_Isolation.cfg": "page ids < 8, 4 txs, 2 readers", "MC_Isolation_nofl.cfg": "same, no freelist page", "MC_Isolation_deep.cfg": "page ids < 9, 5 txs, 3 readers",
- "MC_Crash.cfg": "page ids < 7, 3 txs, every crash subset + torn meta", "MC_Crash_nofl.cfg": "page ids < 8, 4 txs, no freelist page", "MC_Crash_deep.cfg": "page ids < 8, 3 txs",
+ "MC_Crash.cfg": "page ids < 7, 3 txs, every crash subset + torn meta", "MC_Crash_nofl.cfg": "page ids < 8, 4 txs, no freelist page", "MC_Crash_deep.cfg": "page ids < 8, 4 txs, every crash subset + torn meta",
  "MC_Fault.cfg": "page ids < 8, 4 txs, 2 readers, one fault", "MC_Fault_nofl.cfg": "same, no freelist page", "MC_Fault_deep.cfg": "page ids < 8, 5 txs, 2 readers",
  "MC_Freelist.cfg": "pages 2..5, 3 txids, runs <= 2, 1 reader, all initial free sets", "MC_Freelist_deep.cfg": "pages 2..6",
  "MC_Size.cfg": "real constants, limit lattice x chunk sizes x initial maps", "MC_Size_nogrow.cfg": "same, NoGrowSync",
